@@ -1,9 +1,20 @@
-(* Driver.v -- run_line : case line -> model's observable result, for every suite. *)
+(* Driver.v -- run_line : case line -> the model's observable result, for every suite.
+   The formats are documented next to each runner; harness/src/suites/*.rs prints the same
+   format from the real crate. *)
 
 From Coq Require Import String.
-From JP Require Import Bytes Spec Proto Model.Token.
+From JP Require Import Bytes Dec Spec Proto Value ProtoValue
+  Model.Token Model.Pointer Model.Slice Model.Index Model.Tree.
 
-Open Scope string_scope.
+Definition is_op (op : str) (name : string) : bool := str_eqb op (s2b name).
+Arguments is_op _ _%string.
+
+Definition opt_bind {A B} (o : option A) (f : A -> option B) : option B :=
+  match o with Some a => f a | None => None end.
+
+Notation "'do' x <- e ; k" := (opt_bind e (fun x => k)) (at level 200, x pattern, e at level 100, k at level 200).
+
+(* ================================================================== suite token ===== *)
 
 Definition kind_name (k : enc_kind) : str :=
   match k with KTilde => s2b "tilde" | KSlash => s2b "slash" end.
@@ -11,33 +22,521 @@ Definition kind_name (k : enc_kind) : str :=
 (* tnew x<raw>           -> x<encoded> x<decoded>
    tenc x<pre-encoded>   -> ok x<encoded> x<decoded>  |  err <offset> tilde|slash *)
 Definition run_token (op : str) (args : list str) : option str :=
-  if str_eqb op (s2b "tnew") then
+  if is_op op "tnew" then
     match args with
-    | [f] => match parse_x f with
-             | Some s => let t := token_new false s in
-                         Some (out [xfield (ttext t); xfield (decoded (ttext t))])
-             | None => None
-             end
+    | [f] => do s <- parse_x f;
+             let t := token_new false s in
+             Some (out [xfield (ttext t); xfield (decoded (ttext t))])
     | _ => None
     end
-  else if str_eqb op (s2b "tenc") then
+  else if is_op op "tenc" then
     match args with
-    | [f] => match parse_x f with
-             | Some s =>
-                 match from_encoded s with
-                 | None => Some (out [s2b "ok"; xfield s; xfield (decoded s)])
-                 | Some (o, k) => Some (out [s2b "err"; dec_of_N o; kind_name k])
-                 end
-             | None => None
+    | [f] => do s <- parse_x f;
+             match from_encoded s with
+             | None => Some (out [s2b "ok"; xfield s; xfield (decoded s)])
+             | Some (o, k) => Some (out [s2b "err"; dec_of_N o; kind_name k])
              end
     | _ => None
     end
   else None.
 
+(* ================================================================== suite parse ===== *)
+
+Definition door_of (f : str) : option door :=
+  if is_op f "parse" then Some DParse
+  else if is_op f "bufparse" then Some DBufParse
+  else if is_op f "fromstr" then Some DFromStr
+  else if is_op f "tryfromstr" then Some DTryFromStr
+  else if is_op f "tryfromstring" then Some DTryFromString
+  else if is_op f "deborrowed" then Some DDeBorrowed
+  else if is_op f "deowned" then Some DDeOwned
+  else if is_op f "fromstatic" then Some DFromStatic
+  else None.
+
+Definition outcome_label (o : outcome (N * N)) : list str :=
+  match o with
+  | Ret (a, b) => [s2b "label"; dec_of_N a; dec_of_N b]
+  | Panic => [s2b "label"; s2b "panic"]
+  | OutOfFuel => [s2b "label"; s2b "fuel"]
+  end.
+
+(* the error as the accessors show it: kind pointer_offset source_offset complete_offset *)
+Definition perr_fields (e : parse_error) : list str :=
+  [match e with NoLeadingSlash => s2b "nls" | InvalidEncoding _ _ => s2b "enc" end;
+   dec_of_N (pe_pointer_offset e); dec_of_N (pe_source_offset e); dec_of_N (pe_complete_offset e)].
+
+(* door <door> x<text> ->
+     ok x<as_str>
+   | err <kind> <po> <so> <co> label <o> <l>            (label computed for the input as subject)
+   | report <kind> <po> <so> <co> x<subject> label <o> <l>
+   | serdeerr | panic *)
+Definition run_parse (op : str) (args : list str) : option str :=
+  if is_op op "door" then
+    match args with
+    | [d; f] =>
+        do dr <- door_of d; do s <- parse_x f;
+        Some (out match door_run dr s with
+                  | DoorOk t => [s2b "ok"; xfield t]
+                  | DoorErr e => s2b "err" :: perr_fields e ++ outcome_label (pe_label e s)
+                  | DoorReport e subj => s2b "report" :: perr_fields e ++ [xfield subj] ++ outcome_label (pe_label e subj)
+                  | DoorSerdeErr => [s2b "serdeerr"]
+                  | DoorPanic => [s2b "panic"]
+                  end)
+    | _ => None
+    end
+  else None.
+
+(* ================================================================== suite tokens ===== *)
+
+Fixpoint parse_xs (fs : list str) : option (list str) :=
+  match fs with
+  | [] => Some []
+  | f :: r => do s <- parse_x f; do t <- parse_xs r; Some (s :: t)
+  end.
+
+Definition opt_field {A} (pr : A -> str) (o : option A) : str :=
+  match o with Some a => pr a | None => none_field end.
+
+(* offset of token i inside p: sum of 1 + len over the preceding tokens, plus 1 *)
+Fixpoint tok_start (ts : list str) (i : nat) (acc : nat) : nat :=
+  match i, ts with
+  | O, _ => S acc
+  | S i', t :: r => tok_start r i' (acc + S (length t))
+  | S _, [] => S acc
+  end.
+
+(* ftok x<t1> x<t2> ...   -> x<text of from_tokens>
+   acc x<p>               -> n<count> r<is_root> f<front> b<back> sf<tok>,<rest> sb<front>,<tok> pa<parent>
+                             t x<enc>:x<dec> ...      (each token, encoded and decoded)
+                             (views relative to p; p must be a valid pointer)
+   wtt x<p> x<raw>        -> x<with_trailing_token>      wlt x<p> x<raw> -> x<with_leading_token> *)
+Definition run_tokens (op : str) (args : list str) : option str :=
+  if is_op op "ftok" then
+    do L <- parse_xs args; Some (xfield (buf_from_tokens L))
+  else if is_op op "acc" then
+    match args with
+    | [f] =>
+        do p <- parse_x f;
+        let ts := ptokens p in
+        Some (out (
+          [110 :: dec_of_N (pcount p);
+           114 :: bool_field (is_root p);
+           102 :: opt_field (fun t => view_field 1 (length t)) (front p);
+           98 :: opt_field (suffix_view p) (back p);
+           s2b "sf" ++ opt_field (fun '(t, r) => view_field 1 (length t) ++ 44 :: suffix_view p r) (split_front p);
+           s2b "sb" ++ opt_field (fun '(fr, t) => prefix_view p fr ++ 44 :: suffix_view p t) (split_back p);
+           s2b "pa" ++ opt_field (prefix_view p) (parent p);
+           s2b "t"] ++ map (fun t => xfield t ++ 58 :: xfield (decoded t)) ts))
+    | _ => None
+    end
+  else if is_op op "wtt" then
+    match args with
+    | [f; g] => do p <- parse_x f; do t <- parse_x g;
+                Some (xfield (with_trailing_token p (ttext (token_new false t))))
+    | _ => None
+    end
+  else if is_op op "wlt" then
+    match args with
+    | [f; g] => do p <- parse_x f; do t <- parse_x g;
+                Some (xfield (with_leading_token p (ttext (token_new false t))))
+    | _ => None
+    end
+  else None.
+
+(* ================================================================== suite slice ===== *)
+
+Definition range_field (o : outcome (option (N * N))) : str :=
+  match o with
+  | Ret None => none_field
+  | Ret (Some (a, b)) => view_field (N.to_nat a) (N.to_nat (b - a))
+  | Panic => s2b "panic"
+  | OutOfFuel => s2b "fuel"
+  end.
+
+Definition parse_bound (f : str) : option bound :=
+  match f with
+  | 105 :: d => option_map Included (parse_dec d)
+  | 101 :: d => option_map Excluded (parse_dec d)
+  | [117] => Some Unbounded
+  | _ => None
+  end.
+
+(* get <i> x<p>        -> -|@s+l|@e                  (token view)
+   rr <a> <b> x<p>     a..b     rf <a> x<p>   a..     rt <b> x<p>  ..b
+   ri <a> <b> x<p>     a..=b    rti <b> x<p>  ..=b    ru x<p>      ..
+   rb <lo> <hi> x<p>   (Bound, Bound): i<n> | e<n> | u
+   spat <k> x<p>       -> -|<head view>,<tail view> *)
+Definition run_slice (op : str) (args : list str) : option str :=
+  if is_op op "get" then
+    match args with
+    | [i; f] => do i <- parse_dec i; do p <- parse_x f;
+                Some (opt_field (fun t => view_field (tok_start (ptokens p) (N.to_nat i) 0) (length t))
+                                (get_tok p i))
+    | _ => None
+    end
+  else if is_op op "rr" then
+    match args with
+    | [a; b; f] => do a <- parse_dec a; do b <- parse_dec b; do p <- parse_x f; Some (range_field (get_range p a b))
+    | _ => None
+    end
+  else if is_op op "rf" then
+    match args with
+    | [a; f] => do a <- parse_dec a; do p <- parse_x f; Some (range_field (get_range_from p a))
+    | _ => None
+    end
+  else if is_op op "rt" then
+    match args with
+    | [b; f] => do b <- parse_dec b; do p <- parse_x f; Some (range_field (get_range_to p b))
+    | _ => None
+    end
+  else if is_op op "ri" then
+    match args with
+    | [a; b; f] => do a <- parse_dec a; do b <- parse_dec b; do p <- parse_x f; Some (range_field (get_range_incl p a b))
+    | _ => None
+    end
+  else if is_op op "rti" then
+    match args with
+    | [b; f] => do b <- parse_dec b; do p <- parse_x f; Some (range_field (get_range_to_incl p b))
+    | _ => None
+    end
+  else if is_op op "ru" then
+    match args with
+    | [f] => do p <- parse_x f; Some (range_field (get_range_full p))
+    | _ => None
+    end
+  else if is_op op "rb" then
+    match args with
+    | [lo; hi; f] => do lo <- parse_bound lo; do hi <- parse_bound hi; do p <- parse_x f;
+                     Some (range_field (get_bounds p lo hi))
+    | _ => None
+    end
+  else if is_op op "spat" then
+    match args with
+    | [k; f] => do k <- parse_dec k; do p <- parse_x f;
+                Some (opt_field (fun '(h, t) => prefix_view p h ++ 44 :: suffix_view p t) (split_at p k))
+    | _ => None
+    end
+  else None.
+
+(* ================================================================== suite prefix ===== *)
+
+Definition outcome_bool (o : outcome bool) : str :=
+  match o with Ret b => bool_field b | Panic => s2b "panic" | OutOfFuel => s2b "fuel" end.
+
+(* pfx x<p> x<q> -> sw<0|1> sp<view|-> ew<0|1> ss<view|-> ix<view> cc x<concat> *)
+Definition run_prefix (op : str) (args : list str) : option str :=
+  if is_op op "pfx" then
+    match args with
+    | [f; g] =>
+        do p <- parse_x f; do q <- parse_x g;
+        Some (out [s2b "sw" ++ outcome_bool (p_starts_with p q);
+                   s2b "sp" ++ opt_field (suffix_view p) (p_strip_prefix p q);
+                   s2b "ew" ++ bool_field (p_ends_with p q);
+                   s2b "ss" ++ opt_field (prefix_view p) (p_strip_suffix p q);
+                   s2b "ix" ++ prefix_view p (intersection p q);
+                   s2b "cc"; xfield (concat_ptr p q)])
+    | _ => None
+    end
+  else None.
+
+(* ================================================================== suite buf ===== *)
+
+Definition COLON : N := 58.
+
+Definition ret_tok (o : option str) : str :=
+  match o with Some t => s2b "s:" ++ xfield t | None => s2b "n" end.
+
+(* one mutator applied to the text; result (new text, printed return value) *)
+Definition buf_step (p : str) (opf : str) : option (str * str) :=
+  match split_on COLON opf with
+  | [o; a] =>
+      if is_op o "pf" then do t <- parse_x a; Some (push_front p (ttext (token_new false t)), s2b "u")
+      else if is_op o "pb" then do t <- parse_x a; Some (push_back p (ttext (token_new false t)), s2b "u")
+      else if is_op o "pfe" then do t <- parse_x a; Some (push_front p t, s2b "u")   (* a valid pre-encoded token *)
+      else if is_op o "pbe" then do t <- parse_x a; Some (push_back p t, s2b "u")
+      else if is_op o "ap" then do q <- parse_x a; Some (append p q, s2b "u")
+      else None
+  | [o] =>
+      if is_op o "of" then
+        match pop_front p with
+        | Ret (p', r) => Some (p', ret_tok r)
+        | Panic => Some (p, s2b "panic")
+        | OutOfFuel => Some (p, s2b "fuel")
+        end
+      else if is_op o "ob" then let '(p', r) := pop_back p in Some (p', ret_tok r)
+      else if is_op o "cl" then Some (clear p, s2b "u")
+      else None
+  | [o; i; a] =>
+      if is_op o "rp" then
+        do i <- parse_dec i; do t <- parse_x a;
+        let '(p', r) := replace_tok p i (ttext (token_new false t)) in
+        Some (p', match r with
+                  | ReplOk old => s2b "ok:" ++ opt_field xfield old
+                  | ReplErr ix c => s2b "err:" ++ dec_of_N ix ++ COLON :: dec_of_N c
+                  end)
+      else None
+  | _ => None
+  end.
+
+Fixpoint buf_run (p : str) (ops : list str) : option (list str) :=
+  match ops with
+  | [] => Some []
+  | o :: r => do (p', ret) <- buf_step p o; do rest <- buf_run p' r; Some ((xfield p' ++ 47 :: ret) :: rest)
+  end.
+
+(* buf x<start> <op> <op> ...  -> x<text>/<ret> per step
+   ops: pf:x<raw> pb:x<raw> pfe:x<enc> pbe:x<enc> of ob ap:x<ptr> rp:<idx>:x<raw> cl *)
+Definition run_buf (op : str) (args : list str) : option str :=
+  if is_op op "buf" then
+    match args with
+    | f :: ops => do p <- parse_x f; do r <- buf_run p ops; Some (out r)
+    | _ => None
+    end
+  else None.
+
+(* ================================================================== suite index ===== *)
+
+Definition print_oob (r : result N (N * N)) : str :=
+  match r with
+  | Ok n => s2b "ok:" ++ dec_of_N n
+  | Err (l, i) => s2b "err:" ++ dec_of_N l ++ COLON :: dec_of_N i
+  end.
+
+Definition pie_fields (source : str) (e : parse_index_error) : list str :=
+  match e with
+  | LeadingZeros => [s2b "lz"]
+  | InvalidCharacter off =>
+      [s2b "ic"; dec_of_N off;
+       match invalid_char source off with Ret b => dec_of_N b | Panic => s2b "panic" | OutOfFuel => s2b "fuel" end]
+  | InvalidInteger IntEmpty => [s2b "ii"; s2b "empty"]
+  | InvalidInteger IntPosOverflow => [s2b "ii"; s2b "overflow"]
+  end.
+
+Definition parse_index_field (f : str) : option index :=
+  if is_op f "next" then Some Next
+  else match f with
+       | 110 :: d => option_map Num (parse_dec d)
+       | _ => None
+       end.
+
+(* idx x<s>            -> ok next x2d | ok num <n> x<display> | err lz | err ic <off> <byte> | err ii empty|overflow
+   flen n<k>|next <len> -> fl<ok:n|err:l:i> fi<..> fu<n> *)
+Definition run_index (op : str) (args : list str) : option str :=
+  if is_op op "idx" then
+    match args with
+    | [f] => do s <- parse_x f;
+             Some (out match index_from_str s with
+                       | Ok Next => [s2b "ok"; s2b "next"; xfield (index_display Next)]
+                       | Ok (Num n) => [s2b "ok"; s2b "num"; dec_of_N n; xfield (index_display (Num n))]
+                       | Err e => s2b "err" :: pie_fields s e
+                       end)
+    | _ => None
+    end
+  else if is_op op "flen" then
+    match args with
+    | [i; l] => do i <- parse_index_field i; do l <- parse_dec l;
+                Some (out [s2b "fl" ++ print_oob (for_len i l); s2b "fi" ++ print_oob (for_len_incl i l);
+                           s2b "fu" ++ dec_of_N (for_len_unchecked i l)])
+    | _ => None
+    end
+  else None.
+
+(* ================================================================== suite tree ===== *)
+
+Definition parse_backend (f : str) : option backend :=
+  if is_op f "json" then Some Json else if is_op f "toml" then Some Toml else None.
+
+Definition label_fields (o : option (N * N)) : list str :=
+  match o with
+  | Some (a, b) => [s2b "label"; dec_of_N a; dec_of_N b]
+  | None => [s2b "label"; s2b "none"]
+  end.
+
+Definition rerr_fields (ptr : str) (e : resolve_error) : list str :=
+  (match e with
+   | RFailedToParseIndex p o src => [s2b "err"; s2b "fpi"; dec_of_N p; dec_of_N o] ++ pie_fields [] src
+   | ROutOfBounds p o l i => [s2b "err"; s2b "oob"; dec_of_N p; dec_of_N o; dec_of_N l; dec_of_N i]
+   | RNotFound p o => [s2b "err"; s2b "nf"; dec_of_N p; dec_of_N o]
+   | RUnreachable p o => [s2b "err"; s2b "unr"; dec_of_N p; dec_of_N o]
+   end) ++ label_fields (walk_label (re_position e) (re_offset e) ptr).
+
+Definition aerr_fields (ptr : str) (e : assign_error) : list str :=
+  (match e with
+   | AFailedToParseIndex p o src => [s2b "err"; s2b "fpi"; dec_of_N p; dec_of_N o] ++ pie_fields [] src
+   | AOutOfBounds p o l i => [s2b "err"; s2b "oob"; dec_of_N p; dec_of_N o; dec_of_N l; dec_of_N i]
+   end) ++ label_fields (walk_label (ae_position e) (ae_offset e) ptr).
+
+Definition panic_fields : list str := [s2b "panic"].
+Definition fuel_fields : list str := [s2b "fuel"].
+
+(* the `ic` payload's offending byte is taken from the token text, which the error value carries
+   as `source`; for the tree suites only kind and offset are printed (the byte needs the token) *)
+Definition pie_fields_tok (e : parse_index_error) : list str :=
+  match e with
+  | LeadingZeros => [s2b "lz"]
+  | InvalidCharacter off => [s2b "ic"; dec_of_N off]
+  | InvalidInteger IntEmpty => [s2b "ii"; s2b "empty"]
+  | InvalidInteger IntPosOverflow => [s2b "ii"; s2b "overflow"]
+  end.
+
+Definition rerr_fields' (ptr : str) (e : resolve_error) : list str :=
+  (match e with
+   | RFailedToParseIndex p o src => [s2b "err"; s2b "fpi"; dec_of_N p; dec_of_N o] ++ pie_fields_tok src
+   | ROutOfBounds p o l i => [s2b "err"; s2b "oob"; dec_of_N p; dec_of_N o; dec_of_N l; dec_of_N i]
+   | RNotFound p o => [s2b "err"; s2b "nf"; dec_of_N p; dec_of_N o]
+   | RUnreachable p o => [s2b "err"; s2b "unr"; dec_of_N p; dec_of_N o]
+   end) ++ label_fields (walk_label (re_position e) (re_offset e) ptr).
+
+Definition aerr_fields' (ptr : str) (e : assign_error) : list str :=
+  (match e with
+   | AFailedToParseIndex p o src => [s2b "err"; s2b "fpi"; dec_of_N p; dec_of_N o] ++ pie_fields_tok src
+   | AOutOfBounds p o l i => [s2b "err"; s2b "oob"; dec_of_N p; dec_of_N o; dec_of_N l; dec_of_N i]
+   end) ++ label_fields (walk_label (ae_position e) (ae_offset e) ptr).
+
+Definition resolve_fields (ptr : str) (r : outcome (result (list sel * value) resolve_error)) : list str :=
+  match r with
+  | Ret (Ok (path, v)) => [s2b "ok"; path_field path] ++ print_value v
+  | Ret (Err e) => rerr_fields' ptr e
+  | Panic => panic_fields
+  | OutOfFuel => fuel_fields
+  end.
+
+Definition assign_fields (ptr : str) (r : outcome (value * result (option value) assign_error)) : list str :=
+  match r with
+  | Ret (d', Ok rep) =>
+      [s2b "ok"] ++ match rep with Some o => s2b "some" :: print_value o | None => [s2b "none"] end
+      ++ [s2b "doc"] ++ print_value d'
+  | Ret (d', Err e) => aerr_fields' ptr e ++ [s2b "doc"] ++ print_value d'
+  | Panic => panic_fields
+  | OutOfFuel => fuel_fields
+  end.
+
+Definition delete_fields (r : outcome (value * option value)) : list str :=
+  match r with
+  | Ret (d', rep) =>
+      match rep with Some o => s2b "some" :: print_value o | None => [s2b "none"] end
+      ++ [s2b "doc"] ++ print_value d'
+  | Panic => panic_fields
+  | OutOfFuel => fuel_fields
+  end.
+
+Definition write_fields (ptr : str) (r : outcome (result value resolve_error)) : list str :=
+  match r with
+  | Ret (Ok d') => [s2b "ok"; s2b "doc"] ++ print_value d'
+  | Ret (Err e) => rerr_fields' ptr e
+  | Panic => panic_fields
+  | OutOfFuel => fuel_fields
+  end.
+
+(* one tree operation; returns the printed result and the document afterwards *)
+Definition tree_op (be : backend) (o : str) (fs : list str) (d : value) : option (list str * value * list str) :=
+  if is_op o "R" || is_op o "M" then        (* resolve / resolve_mut *)
+    match fs with
+    | f :: rest => do p <- parse_x f; Some (resolve_fields p (resolve p d), d, rest)
+    | _ => None
+    end
+  else if is_op o "A" then                 (* assign *)
+    match fs with
+    | f :: rest =>
+        do p <- parse_x f; do (src, rest') <- parse_value_fields rest;
+        let r := assign p d src in
+        Some (assign_fields p r, match r with Ret (d', _) => d' | _ => d end, rest')
+    | _ => None
+    end
+  else if is_op o "D" then                 (* delete *)
+    match fs with
+    | f :: rest =>
+        do p <- parse_x f;
+        let r := delete be p d in
+        Some (delete_fields r, match r with Ret (d', _) => d' | _ => d end, rest)
+    | _ => None
+    end
+  else if is_op o "W" then                 (* *resolve_mut(p) = v *)
+    match fs with
+    | f :: rest =>
+        do p <- parse_x f; do (src, rest') <- parse_value_fields rest;
+        let r := write_through p d src in
+        Some (write_fields p r, match r with Ret (Ok d') => d' | _ => d end, rest')
+    | _ => None
+    end
+  else None.
+
+Fixpoint hist_run (fuel : nat) (be : backend) (d : value) (fs : list str) : option (list str) :=
+  match fuel with
+  | O => None
+  | S fuel' =>
+      match fs with
+      | [] => Some []
+      | o :: rest =>
+          do (res, d', rest') <- tree_op be o rest d;
+          match rest' with
+          | [] => Some res
+          | sep :: rest'' =>
+              if is_op sep ";" then do more <- hist_run fuel' be d' rest''; Some (res ++ s2b ";" :: more)
+              else None
+          end
+      end
+  end.
+
+(* tree <json|toml> <doc> <op> ...          one operation
+   hist <json|toml> <doc> <op> ... ; <op> ... ; ...     a history, results joined by ";"
+     ops:  R x<ptr> | M x<ptr> | A x<ptr> <value> | D x<ptr> | W x<ptr> <value>
+   results: R/M: ok P<path> <value> | err <kind> <pos> <off> [payload] label <o> <l>
+            A:   ok some <old>|none doc <doc>  | err ... doc <doc>
+            D:   some <old>|none doc <doc>
+            W:   ok doc <doc> | err ...          | panic *)
+Definition run_tree (op : str) (args : list str) : option str :=
+  if is_op op "tree" || is_op op "hist" then
+    match args with
+    | b :: rest =>
+        do be <- parse_backend b; do (d, rest') <- parse_value_fields rest;
+        do r <- hist_run (S (length rest')) be d rest'; Some (out r)
+    | _ => None
+    end
+  else None.
+
+(* ================================================================== suite cmp / conv ===== *)
+
+Definition cmp_name (c : comparison) : str :=
+  match c with Lt => s2b "lt" | Eq => s2b "eq" | Gt => s2b "gt" end.
+
+(* cmp x<a> x<b>  -> <eq:0|1> <lt|eq|gt>          (what comparing the texts gives)
+   conv x<s>      -> ok x<s> | rej               (every conversion / serde round trip keeps the text)
+   tint <dec>     -> x<decimal spelling>          (Token::from(integer)) *)
+Definition run_cmp (op : str) (args : list str) : option str :=
+  if is_op op "cmp" then
+    match args with
+    | [f; g] => do a <- parse_x f; do b <- parse_x g; Some (out [bool_field (str_eqb a b); cmp_name (str_cmp a b)])
+    | _ => None
+    end
+  else if is_op op "conv" then
+    match args with
+    | [f] => do s <- parse_x f;
+             Some (match validate s with None => out [s2b "ok"; xfield s] | Some _ => s2b "rej" end)
+    | _ => None
+    end
+  else if is_op op "tint" then
+    match args with
+    | [f] => do z <- parse_Z f; Some (xfield (dec_of_Z z))
+    | _ => None
+    end
+  else None.
+
+(* ================================================================== dispatch ===== *)
+
+Fixpoint first_some {A} (l : list (option A)) : option A :=
+  match l with
+  | [] => None
+  | Some a :: _ => Some a
+  | None :: r => first_some r
+  end.
+
 Definition run_line (line : str) : str :=
   match fields line with
   | op :: args =>
-      match run_token op args with
+      match first_some [run_token op args; run_parse op args; run_tokens op args; run_slice op args;
+                        run_prefix op args; run_buf op args; run_index op args; run_tree op args;
+                        run_cmp op args] with
       | Some r => r
       | None => bad_case
       end
